@@ -113,6 +113,7 @@ type Task struct {
 	done    bool
 	fake    map[uintptr]int // locks "held" only nominally while dying
 	client  bool
+	auxN    uint64
 	anon    bool
 	ch      chan Outcome
 }
@@ -171,6 +172,7 @@ type Sim struct {
 	crashHooks map[string]func()
 	stopFns    []func()
 	violation  *Violation
+	soft       *Violation
 	MaxSteps   int
 	MaxVirtual time.Duration
 	anonSeq    int
@@ -305,6 +307,9 @@ func Run(t *testing.T, c *Case, keepTrace bool, setup func(s *Sim), finish func(
 		})
 	}()
 	cur.Store(nil)
+	if s.violation == nil {
+		s.violation = s.soft
+	}
 	res.Violation = s.violation
 	res.TraceHash = s.hash
 	res.SchedSig = s.sig
@@ -319,6 +324,17 @@ func (s *Sim) Fail(prop, clause, format string, args ...any) {
 	s.vmu.Lock()
 	if s.violation == nil {
 		s.violation = &Violation{Property: prop, Clause: clause, Detail: fmt.Sprintf(format, args...), Step: s.step}
+	}
+	s.vmu.Unlock()
+}
+
+// FailSoft records a violation without ending the run: the run goes on so
+// that other clauses are still explored, and the soft verdict is reported only
+// if no other violation turns up. Used for clauses with an open known finding.
+func (s *Sim) FailSoft(prop, clause, format string, args ...any) {
+	s.vmu.Lock()
+	if s.soft == nil {
+		s.soft = &Violation{Property: prop, Clause: clause, Detail: fmt.Sprintf(format, args...), Step: s.step}
 	}
 	s.vmu.Unlock()
 }
@@ -365,6 +381,16 @@ func (s *Sim) Now() time.Duration { return time.Since(s.start) }
 func (s *Sim) Aux(n int) int {
 	if n <= 1 {
 		return 0
+	}
+	// A goroutine woken by a real primitive (semaphore, WaitGroup) can run at
+	// the same time as the released task until it reaches its next shim, so a
+	// shared stream would hand out values in a runtime-dependent order. Each
+	// task therefore gets its own stream: hash(case seed, task name, counter).
+	if t := s.me(); t != nil {
+		t.auxN++
+		h := fnv.New64a()
+		fmt.Fprintf(h, "%d|%s|%d", s.Case.Seed, t.Name, t.auxN)
+		return int(h.Sum64() % uint64(n))
 	}
 	s.mu.Lock()
 	v := s.aux.IntN(n)
